@@ -196,6 +196,7 @@ class Stats(object):
 
 
 SHRINK_CAP = {"quick": 40.0, "thorough": 180.0}
+FAILING = False  # set in a shard once it has recorded a failure
 
 
 def shard_seed(seed, prop, facet, shard):
@@ -249,6 +250,11 @@ def _hypothesis_shard(mod, facet, tier, seed, shard, count, stats):
     cap = SHRINK_CAP[tier]
 
     def body(case):
+        global FAILING
+        if stats.first_failure_at is not None:
+            FAILING = True  # checks may shorten diagnostic waits from now on
+            if time.time() - stats.first_failure_at > cap:
+                return  # shrink cap reached: let Hypothesis terminate quickly
         try:
             info = facet.check(case)
         except Violation as v:
